@@ -170,6 +170,34 @@ Section C07Algebra.
     Qed.
   End SmithFacts.
 
+  (* A is equivalent to the diagonal matrix diag(a_0 .. a_(r-1), 0 ..) with all a_i non-zero:
+     "r is the rank of A and a its diagonal Smith-type form" *)
+  Definition smith_form (m n : nat) (A : mat R) (r : nat) (a : nat -> R) : Prop :=
+    exists P Pi Q Qi : mat R,
+      inv_pair m P Pi /\ inv_pair n Q Qi /\
+      meq m n (mmul o m P (mmul o n A Q)) (fun i j => if (i =? j) && (i <? r) then a i else 0) /\
+      (forall i, (i < r)%nat -> a i <> 0) /\ (r <= Nat.min m n)%nat.
+
+  Lemma smith_diag_entry m n A P Pi Q Qi D r i j :
+    smith m n A P Pi Q Qi D r -> (i < m)%nat -> (j < n)%nat ->
+    D i j = if (i =? j) && (i <? r) then D i i else 0.
+  Proof.
+    intros S Hi Hj. destruct (Nat.eqb_spec i j) as [->|Hne]; cbn [andb].
+    - destruct (Nat.ltb_spec j r) as [Hr|Hr]; [reflexivity|].
+      apply (sm_z _ _ _ _ _ _ _ _ _ S); [assumption|]. apply Nat.min_glb_lt; assumption.
+    - now apply (sm_diag _ _ _ _ _ _ _ _ _ S).
+  Qed.
+
+  Lemma smith_to_form m n A P Pi Q Qi D r :
+    smith m n A P Pi Q Qi D r -> smith_form m n A r (fun i => D i i).
+  Proof.
+    intros S. exists P, Pi, Q, Qi.
+    split; [apply (sm_P _ _ _ _ _ _ _ _ _ S)|]. split; [apply (sm_Q _ _ _ _ _ _ _ _ _ S)|].
+    split; [|split; [apply (sm_nz _ _ _ _ _ _ _ _ _ S)|apply (sm_r _ _ _ _ _ _ _ _ _ S)]].
+    intros i j Hi Hj. rewrite <- (sm_eq _ _ _ _ _ _ _ _ _ S) by assumption.
+    now apply (smith_diag_entry m n A P Pi Q Qi D r).
+  Qed.
+
   (* ======================================================================================== *)
   Section TwoSnf.
     Variables (m n k : nat) (d1 d2 : mat R).            (* d1 : n x m,  d2 : k x n *)
@@ -256,12 +284,12 @@ Section C07Algebra.
           now apply (mmul_id_l o L).
       - (* free x torsion: P1[r1.., :] * B[:, ..r1] = 0 *)
         rewrite (mmul_ext_l n Vi (mmul o n2 Q2i P1r)) by (intros; now apply Vi_free).
-        rewrite (mmul_ext_r n _ V (fun a b => B a (b - n2)%nat)) by (intros; now apply V_tor).
+        rewrite (mmul_ext_r n _ V (fun c e => B c (e - n2)%nat)) by (intros; now apply V_tor).
         rewrite (mmul_assoc o L).
         rewrite mmul_zero_col.
         + unfold mid. destruct (Nat.eqb_spec i j); [lia|reflexivity].
         + intros l Hl.
-          change (mmul o n P1r (fun a b => B a (b - n2)%nat) l j) with (mmul o n P1 B (r1 + l)%nat (j - n2)%nat).
+          change (mmul o n P1r (fun c e => B c (e - n2)%nat) l j) with (mmul o n P1 B (r1 + l)%nat (j - n2)%nat).
           rewrite P1B by lia. unfold mid. destruct (Nat.eqb_spec (r1 + l) (j - n2)); [lia|reflexivity].
       - (* torsion x free: P1[..r1, :] * B[:, r1..] = 0 *)
         rewrite (mmul_ext_l n Vi (fun a b => P1 (a - n2)%nat b)) by (intros; now apply Vi_tor).
@@ -273,8 +301,8 @@ Section C07Algebra.
           change (mmul o n (fun a b => P1 (a - n2)%nat b) Bc i l) with (mmul o n P1 B (i - n2)%nat (r1 + l)%nat).
           rewrite P1B by lia. unfold mid. destruct (Nat.eqb_spec (i - n2) (r1 + l)); [lia|reflexivity].
       - rewrite (mmul_ext_l n Vi (fun a b => P1 (a - n2)%nat b)) by (intros; now apply Vi_tor).
-        rewrite (mmul_ext_r n _ V (fun a b => B a (b - n2)%nat)) by (intros; now apply V_tor).
-        change (mmul o n (fun a b => P1 (a - n2)%nat b) (fun a b => B a (b - n2)%nat) i j)
+        rewrite (mmul_ext_r n _ V (fun c e => B c (e - n2)%nat)) by (intros; now apply V_tor).
+        change (mmul o n (fun a b => P1 (a - n2)%nat b) (fun c e => B c (e - n2)%nat) i j)
           with (mmul o n P1 B (i - n2)%nat (j - n2)%nat).
         rewrite P1B by lia. unfold mid.
         destruct (Nat.eqb_spec (i - n2) (j - n2)); destruct (Nat.eqb_spec i j); try reflexivity; lia.
@@ -312,7 +340,7 @@ Section C07Algebra.
     Proof.
       intros Hi Hj Hjn. pose proof n_split.
       rewrite <- (d2B_zero i (j - n2)%nat) by (try assumption; lia).
-      apply mmul_ext_r. intros l Hl. now apply V_tor.
+      unfold mmul. apply (sum_ext o). intros l Hl. now rewrite V_tor.
     Qed.
 
     Lemma P2d2V : meq k n (mmul o k P2 (mmul o n d2 V)) (fun i j => if j <? n2 then D2 i j else 0).
@@ -343,15 +371,32 @@ Section C07Algebra.
     Lemma Vid1 : meq n m (mmul o n Vi d1)
                      (fun i j => if i <? n2 then 0 else D1 (i - n2)%nat (i - n2)%nat * Q1i (i - n2)%nat j).
     Proof.
-      intros i j Hi Hj. pose proof n_split as Hn. unfold Vi.
+      intros i j Hi Hj. pose proof n_split as Hn.
       destruct (Nat.ltb_spec i n2) as [Hi2|Hi2].
-      - rewrite (mmul_assoc o L). apply mmul_zero_col. intros l Hl.
+      - rewrite (mmul_ext_l n Vi (mmul o n2 Q2i P1r)) by (intros; now apply Vi_free).
+        rewrite (mmul_assoc o L). apply mmul_zero_col. intros l Hl.
         change (mmul o n P1r d1 l j) with (mmul o n P1 d1 (r1 + l)%nat j).
         rewrite (smith_PA_entry _ _ _ _ _ _ _ _ _ S1) by (try assumption; lia).
         destruct (Nat.ltb_spec (r1 + l) r1); [lia|reflexivity].
-      - change (mmul o n (fun a b => P1 (a - n2)%nat b) d1 i j) with (mmul o n P1 d1 (i - n2)%nat j).
+      - rewrite (mmul_ext_l n Vi (fun a b => P1 (a - n2)%nat b)) by (intros; now apply Vi_tor).
+        change (mmul o n (fun a b => P1 (a - n2)%nat b) d1 i j) with (mmul o n P1 d1 (i - n2)%nat j).
         rewrite (smith_PA_entry _ _ _ _ _ _ _ _ _ S1) by (try assumption; lia).
         destruct (Nat.ltb_spec (i - n2) r1); [reflexivity|lia].
+    Qed.
+
+    (* hence d2 itself has a diagonal form with exactly the non-zero entries of D2 *)
+    Lemma smith_form_d2 : smith_form k n d2 r2 (fun i => D2 i i).
+    Proof.
+      exists P2, P2i, V, Vi.
+      split; [apply (sm_P _ _ _ _ _ _ _ _ _ S2)|]. split; [split; [apply VVi|apply ViV]|].
+      split; [|split; [apply (sm_nz _ _ _ _ _ _ _ _ _ S2)|]].
+      - intros i j Hi Hj. rewrite P2d2V by assumption.
+        pose proof r2_le_n2 as Hr2.
+        destruct (Nat.ltb_spec j n2) as [Hj2|Hj2].
+        + now apply (smith_diag_entry _ _ _ _ _ _ _ _ _ i j S2).
+        + destruct (Nat.eqb_spec i j) as [->|Hne]; cbn [andb]; [|reflexivity].
+          destruct (Nat.ltb_spec j r2); [lia|reflexivity].
+      - pose proof (sm_r _ _ _ _ _ _ _ _ _ S2). pose proof n_split. lia.
     Qed.
 
     (* ---------- the generators and coordinates chosen by HomologyCalc::trans ---------- *)
